@@ -207,7 +207,7 @@ fn table_rows(cfg: &MockConfig, node: usize, ks: &str, table: &str) -> Vec<Vec<V
             .nodes
             .iter()
             .enumerate()
-            .filter(|(i, _)| *i != node)
+            .filter(|(i, _)| *i != node && (super::HIDDEN_NODES.load(std::sync::atomic::Ordering::SeqCst) >> *i) & 1 == 0)
             .map(|(_, n)| {
                 vec![V::Inet(n.ip), V::Uuid(n.host_id), V::Inet(n.ip), V::Null, text(&n.dc), text(&n.rack), tokens(n), text("3.0.8"), V::Uuid(SCHEMA_VERSION)]
             })
